@@ -35,6 +35,12 @@ EXTENDS Naturals, Sequences, FiniteSets
 
 Stages   == {"conn", "sender", "rcpt", "body"}
 Verdicts == {"none", "ignore", "quar", "reject"}
+\* a check may also return the raw combined result Reject && Quarantine (check.milter: quarantine
+\* action followed by reject/tempfail), with a Reason that carries an SMTP code ("rq") or is a plain
+\* error ("rqp"): reject wins - the command is refused and nothing is delivered
+Combined == {"rq", "rqp"}
+IsRej(v)  == v \in {"reject"} \cup Combined
+IsQuar(v) == v \in {"quar"} \cup Combined
 DBlocks  == {"D1", "D2"}
 Scopes   == {"G", "S"} \cup DBlocks
 RcptSeq  == <<"r1", "r2", "r3">>
@@ -65,11 +71,11 @@ BodyChecks(c, acc) == ChecksIn(c, "G") \cup ChecksIn(c, "S")
 (***************************************************************************)
 ExpRefused(c, op, r, acc) ==
   CASE op = "start" -> \E k \in ChecksIn(c, "G") \cup ChecksIn(c, "S") :
-                          c.verd[k]["conn"] = "reject" \/ c.verd[k]["sender"] = "reject"
+                          IsRej(c.verd[k]["conn"]) \/ IsRej(c.verd[k]["sender"])
     [] op = "rcpt"  -> \E k \in ScopeChecks(c, r) :
-                          \/ c.verd[k]["conn"] = "reject" \/ c.verd[k]["sender"] = "reject"
-                          \/ RcptVerdict(c, k, r) = "reject"
-    [] op = "body"  -> \E k \in BodyChecks(c, acc) : c.verd[k]["body"] = "reject"
+                          \/ IsRej(c.verd[k]["conn"]) \/ IsRej(c.verd[k]["sender"])
+                          \/ IsRej(RcptVerdict(c, k, r))
+    [] op = "body"  -> \E k \in BodyChecks(c, acc) : IsRej(c.verd[k]["body"])
     [] OTHER -> FALSE
 
 ObsInit(CS) ==
@@ -105,15 +111,15 @@ ObsCall(o, c, k, stage, arg, v, cmd) ==
       key     == IF stage = "rcpt" THEN arg ELSE stage
       counted == stage # "rcpt" \/ InScope(c, k, arg)
       enf     == stage # "rcpt" \/ (o.op = "rcpt" /\ arg = o.r)
-      o0 == [o EXCEPT !.qAny = @ \/ v = "quar"]
+      o0 == [o EXCEPT !.qAny = @ \/ IsQuar(v)]
   IN IF late
      THEN \* the command returned without waiting for this check
-          LET o1 == V(o0, ~(v = "reject" /\ o.lastOk /\ enf), "RejectNotEnforced")
+          LET o1 == V(o0, ~(IsRej(v) /\ o.lastOk /\ enf), "RejectNotEnforced")
               o2 == [o1 EXCEPT !.qReq = @ \/ (v = "quar" /\ o.lastOk /\ enf),
                                !.totK[k] = IF counted THEN @ \cup {key} ELSE @]
           IN o2
      ELSE LET o1 == V(o0, ~(counted /\ key \in o.cur[k]), "StageRepeated")
-          IN [o1 EXCEPT !.rejCur = @ \/ (v = "reject" /\ enf),
+          IN [o1 EXCEPT !.rejCur = @ \/ (IsRej(v) /\ enf),
                         !.qCur = @ \/ (v = "quar" /\ enf),
                         !.cur[k] = IF counted THEN @ \cup {key} ELSE @,
                         !.extra = @ \/ ~counted]
